@@ -16,7 +16,8 @@ CONSTANTS
   CloseConn = TRUE
   HasFallback = TRUE
   AllowClose = TRUE
-  RtoChanges = 1
+  IdleCollects = 1
+  RtoChanges = 2
   DeadlineTicks = FALSE
   OneAtATime = FALSE
   SafePool = FALSE
